@@ -445,6 +445,11 @@ def t_matrix(ctx):
                     ctx.run({'steps': [{'chain': chain, 'act': 'parse', 'text': x.replace(c, y), 'tag': 'look-alike'},
                                        {'chain': chain, 'act': 'parse', 'text': x.replace(c, y, 1), 'tag': 'look-alike'}]})
                     n_look += 1
+        # a valid address of the selected chain wrapped the way wallets and users hand it over: not an address string
+        for x in texts:
+            for deco in ('bitcoin:' + x, 'BITCOIN:' + x, 'bitcoin:' + x + '?amount=1', x + '?amount=1', 'bitcoin://' + x, ' ' + x, x + ' ', x + '\n', '\t' + x,
+                         x + '\x00', '\u3000' + x, x + ',', '<' + x + '>', x + x):
+                ctx.run({'steps': [{'chain': chain, 'act': 'parse', 'text': deco, 'tag': 'decorated'}]})
         for ver in (128, 239, 0x80 ^ 0xff):
             for sec in (bytes(range(1, 33)), b'\x00' * 31 + b'\x01', b'\xff' * 16 + b'\x01' * 16):
                 for tail in (b'', b'\x01'):
